@@ -90,6 +90,24 @@ impl SnmpOid<'_> {
     pub fn starts_with(&self, oid: &SnmpOid) -> bool {
         oid.0.starts_with(&self.0)
     }
+    // Check oid follows the `other` in the lexicographic order
+    // of sub-identifiers (byte order differs for multi-octet ones)
+    pub fn is_after(&self, other: &SnmpOid) -> bool {
+        Self::sub_identifiers(&self.0).gt(Self::sub_identifiers(&other.0))
+    }
+    fn sub_identifiers(data: &[u8]) -> impl Iterator<Item = u64> + '_ {
+        let mut acc = 0u64;
+        data.iter().filter_map(move |c| {
+            acc = (acc << 7) | ((*c as u64) & 0x7f);
+            if c & 0x80 == 0 {
+                let v = acc;
+                acc = 0;
+                Some(v)
+            } else {
+                None
+            }
+        })
+    }
 }
 
 struct OidSubelementIterator<'a>(core::str::Split<'a, &'a str>);
